@@ -136,6 +136,26 @@ class ModeDomain:
             s = self.eval(c, s)
         return s
 
+    def _mode_of(self, rhs, s):
+        """names of the mode values an assigned expression can have (a conditional expression on the size is split by assume)"""
+        src = strip(rhs, casts=True)
+        if src.get("kind") == "ConditionalOperator":
+            c, a, b = kids(src)
+            out = frozenset()
+            for arm, t in ((a, True), (b, False)):
+                cnd, tt = strip(c), t
+                while cnd.get("kind") == "UnaryOperator" and cnd.get("opcode") == "!":
+                    cnd, tt = strip(kids(cnd)[0]), not tt
+                if self.assume(cnd, tt, self.copy(s)) is not None:
+                    out |= self._mode_of(arm, s)
+            return out
+        v = ConstEval(self.prog).try_eval(rhs)
+        nm = [n for n, x in self.ev.items() if x == v]
+        if nm:
+            return frozenset(nm)
+        saved = src.get("kind") == "DeclRefExpr" or (src.get("kind") == "MemberExpr" and not src.get("isArrow"))
+        return frozenset(["saved" if saved else "?"])
+
     def eval(self, e, s):
         e0 = strip(e)
         if not e0:
@@ -146,13 +166,10 @@ class ModeDomain:
             l = strip(ks[0])
             if l.get("kind") == "MemberExpr" and ref_name(kids(l)[0]) == self.inst:
                 if l.get("name") == "assembly_mode":
-                    v = ConstEval(self.prog).try_eval(ks[1])
-                    nm = [n for n, x in self.ev.items() if x == v]
-                    src = strip(ks[1], casts=True)
-                    s["mode"] = frozenset(nm) if nm else frozenset(["saved" if src.get("kind") == "DeclRefExpr" else "?"])
+                    s["mode"] = self._mode_of(ks[1], s)
                 if l.get("name") == "chunk_size":
                     src = strip(ks[1], casts=True)
-                    s["chunk"] = "param" if ref_name(src) == self.size else ("saved" if src.get("kind") == "DeclRefExpr" else "?")
+                    s["chunk"] = "param" if ref_name(src) == self.size else ("saved" if (src.get("kind") == "DeclRefExpr" or (src.get("kind") == "MemberExpr" and not src.get("isArrow"))) else "?")
             return s
         if k == "CallExpr":
             for a in call_args(e0):
